@@ -371,8 +371,11 @@ def trace_violation_from_tlc(c, res, trace_path, what, harness_cmd):
     contradicts the specification at the reported line."""
     st = res.final_state
     line = None
-    err = st.get("err", "")
-    m = re.search(r"<<(\d+)", err)
+    err = st.get("err", "") or st.get("errs", "")
+    m = None
+    for m in re.finditer(r"<<(\d+), \"?[\w-]*\"?>>", err):   # the LAST recorded failure is the violated one
+        pass
+    m = m or re.search(r"<<(\d+)", err)
     if m:
         line = int(m.group(1))
     elif "l" in st:
